@@ -247,6 +247,9 @@ func (df *DataFrame) Head(n int) *DataFrame {
 	if n > df.Nrows() {
 		n = df.Nrows()
 	}
+	if n < 0 {
+		n = 0
+	}
 
 	head := NewDataFrame()
 	for name, col := range df.Columns {
@@ -270,6 +273,9 @@ func (df *DataFrame) Tail(n int) *DataFrame {
 	totalRows := df.Nrows()
 	if n > totalRows {
 		n = totalRows
+	}
+	if n < 0 {
+		n = 0
 	}
 
 	tail := NewDataFrame()
